@@ -77,6 +77,13 @@ pub fn parse_patch_date(date_str: &str) -> Result<(i64, i64), ParsePatchDateErro
             date_str.to_string(),
         ));
     }
+    // The sign is written once, in front of the hours, and applies to the
+    // minutes too ("-0930" is -(9h30m), "-0030" is -30m).
+    let offset_minutes = if m.get(2).unwrap().as_str().starts_with('-') {
+        -offset_minutes
+    } else {
+        offset_minutes
+    };
 
     let offset = offset_hours * 3600 + offset_minutes * 60;
     // Parse secs_str with a time format %Y-%m-%d %H:%M:%S using the chrono crate
